@@ -884,50 +884,8 @@ func (s *Server) handleRelease(req *dhcpv4.DHCPv4) {
 	}
 
 	if exists {
-		// Send RADIUS Accounting-Stop
-		if s.radiusClient != nil && lease.SessionID != "" {
-			sessionTime := uint32(time.Since(lease.SessionStart).Seconds())
-			go func() {
-				err := s.radiusClient.SendAccounting(context.Background(), &radius.AcctRequest{
-					SessionID:      lease.SessionID,
-					Username:       mac.String(),
-					MAC:            mac,
-					FramedIP:       lease.IP,
-					StatusType:     radius.AcctStatusStop,
-					InputOctets:    lease.InputBytes,
-					OutputOctets:   lease.OutputBytes,
-					SessionTime:    sessionTime,
-					TerminateCause: radius.TerminateCauseUserRequest,
-					Class:          lease.Class,
-				})
-				if err != nil {
-					s.logger.Warn("Failed to send RADIUS Accounting-Stop",
-						zap.String("session_id", lease.SessionID),
-						zap.Error(err),
-					)
-				}
-			}()
-		}
-
-		// Remove QoS policy
-		if s.qosMgr != nil {
-			if err := s.qosMgr.RemoveSubscriberQoS(lease.IP); err != nil {
-				s.logger.Warn("Failed to remove QoS policy",
-					zap.String("ip", lease.IP.String()),
-					zap.Error(err),
-				)
-			}
-		}
-
-		// Deallocate NAT
-		if s.natMgr != nil {
-			if err := s.natMgr.DeallocateNAT(lease.IP); err != nil {
-				s.logger.Warn("Failed to deallocate NAT",
-					zap.String("ip", lease.IP.String()),
-					zap.Error(err),
-				)
-			}
-		}
+		// Accounting-Stop, QoS policy, NAT block
+		s.releaseSessionServices(mac, lease, radius.TerminateCauseUserRequest)
 
 		// Release IP back to pool
 		if pool := s.poolMgr.GetPool(lease.PoolID); pool != nil {
@@ -986,6 +944,56 @@ func (s *Server) handleRelease(req *dhcpv4.DHCPv4) {
 	atomic.AddUint64(&s.releasesTotal, 1)
 }
 
+// releaseSessionServices ends what a lease holds besides its address and its cache
+// entries: the RADIUS accounting session (Accounting-Stop), the QoS policy and the
+// NAT block. Every path that ends a lease (RELEASE, DECLINE, expiry) calls it.
+func (s *Server) releaseSessionServices(mac net.HardwareAddr, lease *Lease, cause uint32) {
+	// Send RADIUS Accounting-Stop
+	if s.radiusClient != nil && lease.SessionID != "" {
+		sessionTime := uint32(time.Since(lease.SessionStart).Seconds())
+		go func() {
+			err := s.radiusClient.SendAccounting(context.Background(), &radius.AcctRequest{
+				SessionID:      lease.SessionID,
+				Username:       mac.String(),
+				MAC:            mac,
+				FramedIP:       lease.IP,
+				StatusType:     radius.AcctStatusStop,
+				InputOctets:    lease.InputBytes,
+				OutputOctets:   lease.OutputBytes,
+				SessionTime:    sessionTime,
+				TerminateCause: cause,
+				Class:          lease.Class,
+			})
+			if err != nil {
+				s.logger.Warn("Failed to send RADIUS Accounting-Stop",
+					zap.String("session_id", lease.SessionID),
+					zap.Error(err),
+				)
+			}
+		}()
+	}
+
+	// Remove QoS policy
+	if s.qosMgr != nil {
+		if err := s.qosMgr.RemoveSubscriberQoS(lease.IP); err != nil {
+			s.logger.Warn("Failed to remove QoS policy",
+				zap.String("ip", lease.IP.String()),
+				zap.Error(err),
+			)
+		}
+	}
+
+	// Deallocate NAT
+	if s.natMgr != nil {
+		if err := s.natMgr.DeallocateNAT(lease.IP); err != nil {
+			s.logger.Warn("Failed to deallocate NAT",
+				zap.String("ip", lease.IP.String()),
+				zap.Error(err),
+			)
+		}
+	}
+}
+
 // handleDecline handles DHCP DECLINE
 func (s *Server) handleDecline(req *dhcpv4.DHCPv4) {
 	mac := req.ClientHWAddr
@@ -1016,6 +1024,9 @@ func (s *Server) handleDecline(req *dhcpv4.DHCPv4) {
 		if pool := s.poolMgr.GetPool(lease.PoolID); pool != nil {
 			pool.MarkUnavailable(declinedIP)
 		}
+
+		// The session is over: Accounting-Stop, QoS policy, NAT block
+		s.releaseSessionServices(mac, lease, radius.TerminateCauseUserRequest)
 
 		// Remove the declined binding from the fast path cache (as handleRelease
 		// does), otherwise the kernel keeps answering with the declined address
@@ -1179,12 +1190,21 @@ func (s *Server) cleanupExpiredLeases() {
 			pool.Release(lease.IP)
 		}
 
+		// The session is over: Accounting-Stop, QoS policy, NAT block
+		s.releaseSessionServices(lease.MAC, lease, radius.TerminateCauseSessionTimeout)
+
 		// Remove from fast path cache
 		if s.loader != nil {
 			hwAddr, _ := net.ParseMAC(mac)
 			if hwAddr != nil {
 				macU64 := ebpf.MACToUint64(hwAddr)
 				s.loader.RemoveSubscriber(macU64)
+			}
+			if len(lease.CircuitID) > 0 {
+				s.loader.RemoveCircuitIDMapping(lease.CircuitID)
+				if s.loader.HasCircuitIDSubscriberSupport() {
+					s.loader.RemoveCircuitIDSubscriber(lease.CircuitID)
+				}
 			}
 		}
 	}
